@@ -17,20 +17,31 @@ import (
 
 // Scenario: a pipeline with an output, a producer writing N points, a stopper.
 type Scenario struct {
-	Name   string
-	Script string
-	N      int
-	Stop   string // stop | delete | close
+	Name      string
+	Script    string
+	N         int
+	Stop      string // stop | delete | close
+	Script2   string // optional second task (consumer of a loopback), declared on db2.rp
+	SlowWrite bool   // the first InfluxDB write blocks until a separate goroutine releases it
+	Watcher   bool   // a goroutine calls ExecutingTask.Wait() concurrently (as the task store does)
+	Buf       int    // edge buffer size (0 = 1)
+	MaxExec   int    // >0: only this many schedules (scenario that documents a known deadlock)
 }
 
 func scenarios() []Scenario {
 	var r []Scenario
 	for _, stop := range []string{"stop", "delete", "close"} {
 		r = append(r,
-			Scenario{"influxdbout", `stream|from().measurement('m')|log().prefix('IN')|influxDBOut().database('out').measurement('o')`, 3, stop},
-			Scenario{"log", `stream|from().measurement('m')|log().prefix('IN')|log().prefix('S')`, 3, stop},
-			Scenario{"window-log", `stream|from().measurement('m')|log().prefix('IN')|window().periodCount(1).everyCount(1)|log().prefix('S')`, 3, stop},
-			Scenario{"eval-influxdbout", `stream|from().measurement('m')|log().prefix('IN')|eval(lambda: "v" + 1).as('w').keep('v', 'w')|influxDBOut().database('out').buffer(2)`, 3, stop},
+			Scenario{"influxdbout", `stream|from().measurement('m')|log().prefix('IN')|influxDBOut().database('out').measurement('o')`, 3, stop, "", false, false, 0, 0},
+			Scenario{"log", `stream|from().measurement('m')|log().prefix('IN')|log().prefix('S')`, 3, stop, "", false, false, 0, 0},
+			Scenario{"window-log", `stream|from().measurement('m')|log().prefix('IN')|window().periodCount(1).everyCount(1)|log().prefix('S')`, 3, stop, "", false, false, 0, 0},
+			Scenario{Name: "slow-write", Script: `stream|from().measurement('m')|log().prefix('IN')|influxDBOut().database('out').buffer(1)`, N: 3, Stop: stop, SlowWrite: true},
+			Scenario{Name: "watcher-influxdbout", Script: `stream|from().measurement('m')|log().prefix('IN')|influxDBOut().database('out').buffer(1)`, N: 3, Stop: stop, Watcher: true},
+			Scenario{Name: "loopback", Script: `stream|from().measurement('m')|log().prefix('IN')|kapacitorLoopback().database('db2').retentionPolicy('rp').measurement('loop')`, N: 3, Stop: stop,
+				Script2: `stream|from().measurement('loop')|log().prefix('S')`, Buf: 8},
+			Scenario{Name: "loopback-full-ingest-buffer", Script: `stream|from().measurement('m')|log().prefix('IN')|kapacitorLoopback().database('db2').retentionPolicy('rp').measurement('loop')`, N: 3, Stop: stop,
+				Script2: `stream|from().measurement('loop')|log().prefix('S')`, Buf: 1, MaxExec: 3},
+			Scenario{"eval-influxdbout", `stream|from().measurement('m')|log().prefix('IN')|eval(lambda: "v" + 1).as('w').keep('v', 'w')|influxDBOut().database('out').buffer(2)`, 3, stop, "", false, false, 0, 0},
 		)
 	}
 	return r
@@ -42,16 +53,56 @@ type obs struct {
 	stopReturned bool
 	stopErr      error
 	closeErr     error
+	atStopReturn []int64 // what had reached the output when the stop call returned
+	watcherDone  bool
 }
 
 func harness(sc Scenario) vsched.Harness {
 	return vsched.Harness{
-		Cfg: vsched.Sched{MaxSteps: 20000, Horizon: time.Hour},
+		Cfg: vsched.Sched{MaxSteps: 4000, Horizon: time.Hour},
 		Setup: func() (func(), func(*vsched.Exec)) {
-			kapacitor.VerifSetEdgeBufferSize(1)
+			if sc.Buf > 0 {
+				kapacitor.VerifSetEdgeBufferSize(sc.Buf)
+			} else {
+				kapacitor.VerifSetEdgeBufferSize(1)
+			}
 			o := &obs{}
 			var env *kit.Env
+			_ = env
 			fi := &kit.FakeInflux{BeforeWrite: vsched.Point}
+			release := make(chan struct{})
+			if sc.SlowWrite {
+				first := true
+				fi.BeforeWrite = func() {
+					vsched.Point()
+					if first {
+						first = false
+						<-release // the first write hangs until the releaser lets it go
+					}
+				}
+			}
+			outputNow := func() []int64 {
+				var got []int64
+				if strings.Contains(sc.Script, "influxDBOut") {
+					for _, p := range fi.WrittenCopy() {
+						if v, ok := p.Fields["v"].(int64); ok {
+							got = append(got, v)
+						}
+					}
+				} else if env != nil {
+					for _, it := range env.Diag.Sink("S").Items {
+						if it.P != nil {
+							got = append(got, it.P.Fields["v"].(int64))
+						}
+						if it.B != nil {
+							for _, p := range it.B.Points {
+								got = append(got, p.Fields["v"].(int64))
+							}
+						}
+					}
+				}
+				return got
+			}
 			var setupErr error
 			body := func() {
 				vsched.NoBranch(true)
@@ -60,12 +111,37 @@ func harness(sc Scenario) vsched.Harness {
 					return
 				}
 				env.TM.InfluxDBService = fi
-				if _, setupErr = env.StartStream("t", sc.Script); setupErr != nil {
+				et, err := env.StartStream("t", sc.Script)
+				if err != nil {
+					setupErr = err
 					return
+				}
+				if sc.Script2 != "" {
+					if _, setupErr = env.Start("t2", sc.Script2, kapacitor.StreamTask, []kapacitor.DBRP{{Database: "db2", RetentionPolicy: "rp"}}); setupErr != nil {
+						return
+					}
 				}
 				vsched.Idle()
 				vsched.NoBranch(false)
-				done := make(chan struct{}, 2)
+				done := make(chan struct{}, 4)
+				nActors := 2
+				if sc.Watcher {
+					nActors++
+					vsched.Go(func() { // like the task store: wait for the task to finish
+						et.Wait()
+						o.watcherDone = true
+						vsched.Point()
+						done <- struct{}{}
+					})
+				}
+				if sc.SlowWrite {
+					nActors++
+					vsched.Go(func() { // releases the hanging write at a scheduler-chosen moment
+						vsched.Close(release)
+						vsched.Point()
+						done <- struct{}{}
+					})
+				}
 				stopBegan := false
 				vsched.Go(func() { // producer
 					for i := 0; i < sc.N; i++ {
@@ -91,10 +167,11 @@ func harness(sc Scenario) vsched.Harness {
 						o.stopErr = env.TM.Close()
 					}
 					o.stopReturned = true
+					o.atStopReturn = outputNow()
 					vsched.Point()
 					done <- struct{}{}
 				})
-				for i := 0; i < 2; i++ {
+				for i := 0; i < nActors; i++ {
 					vsched.Point()
 					<-done
 				}
@@ -118,25 +195,7 @@ func harness(sc Scenario) vsched.Harness {
 					return
 				}
 				// what reached the output
-				var got []int64
-				if strings.Contains(sc.Script, "influxDBOut") {
-					for _, p := range fi.WrittenCopy() {
-						if v, ok := p.Fields["v"].(int64); ok {
-							got = append(got, v)
-						}
-					}
-				} else {
-					for _, it := range env.Diag.Sink("S").Items {
-						if it.P != nil {
-							got = append(got, it.P.Fields["v"].(int64))
-						}
-						if it.B != nil {
-							for _, p := range it.B.Points {
-								got = append(got, p.Fields["v"].(int64))
-							}
-						}
-					}
-				}
+				got := outputNow()
 				x.Outcome = fmt.Sprintf("acked=%d atStop=%d out=%v", o.acked, o.ackedAtStop, got)
 				seen := map[int64]int{}
 				for _, v := range got {
@@ -161,6 +220,19 @@ func harness(sc Scenario) vsched.Harness {
 						}
 						x.Key, x.Problem = "accepted-point-dropped:"+where, fmt.Sprintf("%s/%s: point %d was acknowledged before the stop call began but never reached the output (output %v, %d acknowledged before stop, %d in total)", sc.Name, sc.Stop, i, got, o.ackedAtStop, o.acked)
 						return
+					}
+				}
+				if sc.Script2 == "" {
+					// ... and it must have been handed to the output before the stop call returned
+					at := map[int64]bool{}
+					for _, v := range o.atStopReturn {
+						at[v] = true
+					}
+					for i := 0; i < o.ackedAtStop; i++ {
+						if !at[int64(i)] && entered[int64(i)] {
+							x.Key, x.Problem = "output-after-stop-returned", fmt.Sprintf("%s/%s: the stop call returned while point %d (accepted before the stop, inside the pipeline) had not been handed to the output yet (output at return %v, finally %v)", sc.Name, sc.Stop, i, o.atStopReturn, got)
+							return
+						}
 					}
 				}
 				if !sort.SliceIsSorted(got, func(i, j int) bool { return got[i] < got[j] }) {
@@ -245,7 +317,7 @@ func TestCheck(t *testing.T) {
 			dl = time.Now().Add(left / time.Duration(len(scs)-i))
 		}
 		_ = start
-		st := vsched.Explore(t, harness(sc), bound, shard, nshards, dl, 0, func(f vsched.Found) {
+		st := vsched.Explore(t, harness(sc), bound, shard, nshards, dl, sc.MaxExec, func(f vsched.Found) {
 			r.Violation(f.Key+":"+sc.Name+":"+sc.Stop, f.Problem+" | schedule "+trim(strings.Join(f.Trace, " "), 1500), Replay{Sc: sc, Picks: f.Picks})
 		})
 		r.Add("evaluations", int64(st.Executions))
@@ -258,7 +330,7 @@ func TestCheck(t *testing.T) {
 			r.Distinct("nontrivial", sc.Name+"|"+sc.Stop+"|"+o)
 			r.Distinct("states", sc.Name+"|"+sc.Stop+"|"+o)
 		}
-		if st.Capped {
+		if st.Capped && sc.MaxExec == 0 {
 			r.Cap("scenario " + sc.Name + "/" + sc.Stop + " capped by deadline")
 		}
 		if shard == 0 {
